@@ -503,6 +503,11 @@ pub fn judge(h: &History, recs: &[StepRec]) -> Result<(u32, u32), Failure> {
             if let Verdict::Accept { fopts, fport, plain, .. } = &d.verdict {
                 let mut reqs = parse_reqs(fopts);
                 if *fport == Some(0) {
+                    // FOpts and a port-0 payload in one frame (forbidden, but authentic frames like that are
+                    // processed): two command streams, so a LinkADRReq block does not continue across them
+                    if !reqs.is_empty() {
+                        reqs.push(Req::Silent(0));
+                    }
                     reqs.extend(parse_reqs(plain));
                 }
                 let exp = expected_answers(&reqs, fixed);
